@@ -1,7 +1,7 @@
 (* C05 — encoding again without edits gives the same bytes.  Statements only. *)
 From Coq Require Import List Arith NArith ZArith Bool.
 Import ListNotations.
-From Orca Require Import Util Reindex Flat Lowering CheckLow CheckReidx SelfReidx Idem Cleared.
+From Orca Require Import Util Reindex Reindex2 Flat Lowering CheckLow CheckReidx CheckReidx2 SelfReidx Idem Cleared ReidxInv Reidx2Proofs.
 
 (* Instrumentation side: after the first encode every special-mode list is empty
    (C05_first_resolution_clears_every_special_list below), the function level lists are cleared, and on such a
@@ -59,19 +59,68 @@ Example C05_former_D31_witness_holds :
   end.
 Proof. vm_compute. repeat split; reflexivity. Qed.
 
-(* Index side (partial): the first encode rewrites every reference in place and keeps `recalculate_ids`
-   set; the second encode applies the id maps again.  When a map is the identity on its domain every
-   reference is emitted unchanged, so the second application changes nothing; otherwise the bytes differ:
-   D01, known finding. *)
+(* Index side.  The first encode reorganises the item vectors in place, never resets `recalculate_ids`, and rewrites
+   in place the references it walks mutably (operators of bodies and probe lists, the start function, initialisers
+   of local globals, offsets of active data segments); the second encode reorganises again and applies the new id
+   maps to what the first one left.  Model/Reindex2.v mirrors exactly that ([encode_again]); its prediction "same /
+   different / panics" is part of the correspondence (agree05) on every sampled history. *)
+
+(* When no item vector is reorganised and every id map is the identity ([settled], executable) the second encoding
+   IS the first one, for every state, every set of references, every set of deleted exports. *)
+Theorem C05_settled_second_encode_same : forall m dead sites e,
+  settled m = true -> encode m dead sites = Ok e -> encode_again m dead sites = Ok e.
+Proof. exact settled_second_encode_same. Qed.
+Print Assumptions C05_settled_second_encode_same.
+
+(* Every state reached from ANY parsed module by ANY history that flags no index space (add_global through the
+   module or an iterator, add_export_*, add_data, deleting exports, and every call that returns without effect) is
+   settled: two consecutive encodings are equal -- in particular those of the unmodified module. *)
+Theorem C05_unflagged_history_second_encode_same : forall (c : rcase) h m rets dead sites e,
+  run_pref (mk_base c) h [] = (m, rets, false) ->
+  (forall x, s_recalc (get_sp m x) = false) ->
+  encode m dead sites = Ok e -> encode_again m dead sites = Ok e.
+Proof. exact untouched_spaces_second_encode_same. Qed.
+Print Assumptions C05_unflagged_history_second_encode_same.
+
+Theorem C05_parsed_module_second_encode_same : forall (c : rcase) dead sites e,
+  encode (mk_base c) dead sites = Ok e -> encode_again (mk_base c) dead sites = Ok e.
+Proof. exact parsed_module_second_encode_same. Qed.
+Print Assumptions C05_parsed_module_second_encode_same.
+
+(* On every case where the model (second encode included) agrees with the implementation: outside the known class
+   D01 the two real encodings were observed equal, and inside it they were observed to differ -- the class is
+   exactly the set of histories for which the model of the in-place rewriting predicts a difference, so it cannot
+   hide a second encode that differs for another reason. *)
+Theorem C05_checker_sound_index_side : forall c : rcase,
+  agree05 c = true -> negb (o_api_panic c) && encoded c = true -> known_D01 c = false -> o_same2 c = true.
+Proof. exact checker05_sound. Qed.
+Print Assumptions C05_checker_sound_index_side.
+Theorem C05_known_D01_is_exact : forall c : rcase,
+  agree05 c = true -> negb (o_api_panic c) && encoded c = true -> known_D01 c = true -> o_same2 c = false.
+Proof. exact known_D01_exact. Qed.
+Print Assumptions C05_known_D01_is_exact.
+
+(* non-vacuity: an edited but unflagged history (two add_global, one export) on a module with imports *)
+Example C05_unflagged_nonvacuous :
+  let c := self_r [(0, 11); (1, 12)] [21; 22] [31] [41] [AddLocal SG 51; AddExport SG 1; ItAddGlobal 52]
+                  [mkSite KCode SF 1 (OFunc 2); mkSite KCode SG 2 (OFunc 1); mkSite KInit SG 0 (OGlobal 2)] in
+  (forall x, s_recalc (get_sp (final_model c) x) = false) /\ settled (final_model c) = true /\
+  model_same2 c = Some true.
+Proof. split; [intros []; vm_compute; reflexivity | vm_compute; split; reflexivity]. Qed.
+
+(* The identity-map lemma the theorem above rests on, per reference. *)
 Theorem C05_partial_identity_maps_leave_references :
   forall mf mg mm s q, id_on_domain mf -> id_on_domain mg -> id_on_domain mm ->
     site_emit mf mg mm s = Ok (Some q) -> q = rs_id s.
 Proof. exact site_emit_identity. Qed.
 Print Assumptions C05_partial_identity_maps_leave_references.
 
-(* D01 witness shape (replayed on the implementation by the reindex harness): `call $b` in $a + add_import_func:
-   the first encode maps 1 -> 2, a second application maps the already rewritten 2 again *)
+(* D01, known finding (the property is FALSE of the code on these histories): `call $b` in $a + add_import_func: the
+   first encode maps 1 -> 2 and writes 2 into the body; the second encode maps the already rewritten 2 again (to 3).
+   The model predicts the difference; the reindex harness replays the shape on the implementation. *)
 Example C05_refuted_D01_shape :
   let c := self_r [] [11; 12; 99] [] [] [AddImport SF 21] [mkSite KCode SF 1 (OFunc 2)] in
-  known_D01 c = true /\ e_sites (match o_enc c with Some e => e | None => mkE [] [] [] [] [] end) = [(0, 2)]%N.
-Proof. vm_compute. split; reflexivity. Qed.
+  known_D01 c = true /\ settled (final_model c) = false /\
+  e_sites (match o_enc c with Some e => e | None => mkE [] [] [] [] [] end) = [(0, 2)]%N /\
+  match encode_again (final_model c) [] (sites c) with Ok e2 => e_sites e2 = [(0, 3)]%N | Panic _ => False end.
+Proof. vm_compute. repeat split; reflexivity. Qed.
